@@ -54,3 +54,14 @@ func (tanMux) Create(cfg config.NodeHostConfig, cb config.LogDBCallback,
 	return tan.CreateLogMultiplexedTan(cfg, cb, dirs, wals)
 }
 func (tanMux) Name() string { return "Tan" }
+
+// TanPreopen opens the tan db of the given replica with a small log file size
+// limit, so that the regular log rotation happens with little data. It returns
+// false when db is not a Tan store.
+func TanPreopen(db raftio.ILogDB, shardID uint64, replicaID uint64, maxLogFileSize int64) (bool, error) {
+	t, ok := db.(*tan.LogDB)
+	if !ok {
+		return false, nil
+	}
+	return true, t.VerifC04Preopen(shardID, replicaID, maxLogFileSize)
+}
